@@ -1,9 +1,185 @@
-"""Rationals with symbolic denominator (used by calculate_lm / max_rate_t3); see C03/C17."""
+"""Rationals with a *symbolic* denominator: p/q with z3 Int terms p, q and the invariant q > 0 on the
+current path (a division forks on the sign of the divisor, and on divisor == 0 -> ZeroDivisionError).
+Comparisons cross-multiply; floor/ceil introduce a fresh integer with its defining inequalities.
+Used where the code divides by a symbolic integer (max_rate_t3's vertex, calculate_lm's roots)."""
+from fractions import Fraction
+
+import z3
+
+from . import engine
+from .values import SymInt, SymQ, SymReal, SymBool, mkbool, PREC
 
 
 class SymFrac:
-    pass
+    __slots__ = ("p", "q", "kind")
+
+    def __init__(self, p, q, kind=None):
+        self.p = p
+        self.q = q
+        self.kind = kind
+
+    @staticmethod
+    def of(x):
+        if isinstance(x, SymFrac):
+            return x
+        if isinstance(x, SymQ):
+            return SymFrac(x.num, z3.IntVal(x.den), x.kind)
+        if isinstance(x, SymInt):
+            return SymFrac(x.t, z3.IntVal(1))
+        if isinstance(x, bool):
+            x = int(x)
+        if isinstance(x, int):
+            return SymFrac(z3.IntVal(x), z3.IntVal(1))
+        if isinstance(x, float):
+            fr = Fraction(x)
+            return SymFrac(z3.IntVal(fr.numerator), z3.IntVal(fr.denominator), "f")
+        if isinstance(x, Fraction):
+            return SymFrac(z3.IntVal(x.numerator), z3.IntVal(x.denominator))
+        raise TypeError("cannot make SymFrac of %r" % (x,))
+
+    def _k(self, o):
+        return self.kind or o.kind
+
+    def _lift(self, o):
+        if isinstance(o, (SymFrac, SymQ, SymInt, int, float, Fraction)):
+            return SymFrac.of(o)
+        return None
+
+    def __repr__(self):
+        return "SymFrac(%s / %s)" % (self.p, self.q)
+
+    def __add__(self, o):
+        b = self._lift(o)
+        if b is None:
+            return NotImplemented
+        return SymFrac(self.p * b.q + b.p * self.q, self.q * b.q, self._k(b))
+
+    __radd__ = __add__
+
+    def __sub__(self, o):
+        b = self._lift(o)
+        if b is None:
+            return NotImplemented
+        return SymFrac(self.p * b.q - b.p * self.q, self.q * b.q, self._k(b))
+
+    def __rsub__(self, o):
+        b = self._lift(o)
+        if b is None:
+            return NotImplemented
+        return b - self
+
+    def __mul__(self, o):
+        b = self._lift(o)
+        if b is None:
+            return NotImplemented
+        return SymFrac(self.p * b.p, self.q * b.q, self._k(b))
+
+    __rmul__ = __mul__
+
+    def __neg__(self):
+        return SymFrac(-self.p, self.q, self.kind)
+
+    def __pos__(self):
+        return self
+
+    def __abs__(self):
+        return SymFrac(z3.If(self.p >= 0, self.p, -self.p), self.q, self.kind)
+
+    def __truediv__(self, o):
+        b = self._lift(o)
+        if b is None:
+            return NotImplemented
+        r = engine.cur()
+        d = z3.simplify(b.p)
+        if z3.is_int_value(d):
+            v = d.as_long()
+            if v == 0:
+                raise ZeroDivisionError("division by zero")
+            if v > 0:
+                return SymFrac(self.p * b.q, self.q * b.p, self._k(b))
+            return SymFrac(-(self.p * b.q), self.q * (-b.p), self._k(b))
+        if r.branch(b.p == 0):
+            raise ZeroDivisionError("division by zero")
+        if r.branch(b.p > 0):
+            return SymFrac(self.p * b.q, self.q * b.p, self._k(b))
+        return SymFrac(-(self.p * b.q), self.q * (-b.p), self._k(b))
+
+    def __rtruediv__(self, o):
+        b = self._lift(o)
+        if b is None:
+            return NotImplemented
+        return b / self
+
+    def _cmp(self, o, op):
+        b = self._lift(o)
+        if b is None:
+            return NotImplemented
+        x, y = self.p * b.q, b.p * self.q
+        return mkbool({"lt": x < y, "le": x <= y, "gt": x > y, "ge": x >= y, "eq": x == y, "ne": x != y}[op])
+
+    def __lt__(self, o):
+        return self._cmp(o, "lt")
+
+    def __le__(self, o):
+        return self._cmp(o, "le")
+
+    def __gt__(self, o):
+        return self._cmp(o, "gt")
+
+    def __ge__(self, o):
+        return self._cmp(o, "ge")
+
+    def __eq__(self, o):
+        r = self._cmp(o, "eq")
+        return False if r is NotImplemented else r
+
+    def __ne__(self, o):
+        r = self._cmp(o, "ne")
+        return True if r is NotImplemented else r
+
+    def __hash__(self):
+        return id(self)
+
+    def __bool__(self):
+        return engine.cur().branch(self.p != 0)
+
+    # -- integer parts ---------------------------------------------------------------------------------
+    def floor_int(self, tag="floor"):
+        r = engine.cur()
+        n = r.fresh_int(tag)
+        r.notes.setdefault("_fresh_ints", []).append((tag, n))
+        r.assume(z3.And(self.q * n <= self.p, self.p < self.q * (n + 1)))
+        return SymInt(n)
+
+    def ceil_int(self, tag="ceil"):
+        r = engine.cur()
+        n = r.fresh_int(tag)
+        r.notes.setdefault("_fresh_ints", []).append((tag, n))
+        r.assume(z3.And(self.q * (n - 1) < self.p, self.p <= self.q * n))
+        return SymInt(n)
+
+    def trunc_int(self):
+        if engine.cur().branch(self.p >= 0):
+            return self.floor_int("trunc")
+        return self.ceil_int("trunc")
+
+    def __floor__(self):
+        return self.floor_int()
+
+    def __ceil__(self):
+        return self.ceil_int()
+
+    def __trunc__(self):
+        return self.trunc_int()
+
+    def floor_mp(self):
+        n = self.floor_int()
+        return SymQ(n.t, 1, "mp")
+
+    def ceil_mp(self):
+        n = self.ceil_int()
+        return SymQ(n.t, 1, "mp")
 
 
 def mp_sqrt(x):
-    raise NotImplementedError
+    raise NotImplementedError("mp sqrt is modelled in the calculate_lm harness")
